@@ -8,7 +8,7 @@ Source type of a document = `Val.rank` (its kind: `reflect.TypeOf(source)` of th
 widths are distinct kinds, as in Go).
 
 * Leaf lists (`*intN`, `*uintN`, `*float32/64`, `*string`, `*bool`, `*time.Time`, `*time.Duration`, `*uuid.UUID`,
-  `*any`, `*[]byte`, `*[n]byte`): clause 1 of `CoherentAt` – whether a leaf answers "unsupported type" depends on the
+  `*any`): clause 1 of `CoherentAt` – whether a leaf answers "unsupported type" depends on the
   kind of the source only (`leaf_kind_only`).
 * Composite targets (pointer, slice, array, map, struct): one decoder is compiled, no group – the singleton list
   satisfies clause 2 trivially.
@@ -202,8 +202,12 @@ theorem toR_unsup {r : Res GoVal} : toR r = .unsupported ↔ r = .err .unsupport
   | panic => simp [toR]
   | err e => cases e <;> simp [toR]
 
-theorem ko_listIntoBytes : KindOnly leafListIntoBytes := by
-  intro s s' hk hu
+/-- kind-only on every source that is not a list -/
+def KindOnlyNS (d : Leaf) : Prop :=
+  ∀ s s', SameKind s s' → (∀ l, s ≠ .slice l) → d s = .unsupported → d s' = .unsupported
+
+theorem ko_listIntoBytes : KindOnlyNS leafListIntoBytes := by
+  intro s s' hk hns hu
   have key : ∀ x : Val, (∀ l, x ≠ .slice l) →
       (leafListIntoBytes x = .unsupported ↔ runLeaves (leavesUint .w8) x = .err .unsupportedType) := by
     intro x hx
@@ -217,13 +221,13 @@ theorem ko_listIntoBytes : KindOnly leafListIntoBytes := by
       · exact toR_unsup.mp h
     · intro h; rw [h]; rfl
   cases hk
-  case slice a b => simp [leafListIntoBytes] at hu
+  case slice a b => exact absurd rfl (hns a)
   all_goals
     rw [key _ (by intro l; simp)] at hu ⊢
     exact runLeaves_unsup_kind _ (by simp [leavesUint]) (ko_uint .w8) uint8_no_noop (by constructor) hu
 
-theorem ko_listIntoBarr (n : Nat) : KindOnly (leafListIntoBarr n) := by
-  intro s s' hk hu
+theorem ko_listIntoBarr (n : Nat) : KindOnlyNS (leafListIntoBarr n) := by
+  intro s s' hk hns hu
   have key : ∀ x : Val, (∀ l, x ≠ .slice l) →
       (leafListIntoBarr n x = .unsupported ↔ n ≠ 0 ∧ runLeaves (leavesUint .w8) x = .err .unsupportedType) := by
     intro x hx
@@ -241,27 +245,55 @@ theorem ko_listIntoBarr (n : Nat) : KindOnly (leafListIntoBarr n) := by
         · exact toR_unsup.mp h
       · intro h; rw [h]; rfl
   cases hk
-  case slice a b => simp [leafListIntoBarr] at hu
+  case slice a b => exact absurd rfl (hns a)
   all_goals
     rw [key _ (by intro l; simp)] at hu ⊢
     exact ⟨hu.1, runLeaves_unsup_kind _ (by simp [leavesUint]) (ko_uint .w8) uint8_no_noop (by constructor) hu.2⟩
 
-theorem ko_bytes : ∀ d ∈ leavesBytes ++ [leafListIntoBytes], KindOnly d := by
+theorem ko_bytes_leaves : ∀ d ∈ leavesBytes, KindOnly d ∧ ∀ l, d (.slice l) = .unsupported := by
   intro d hd
-  simp only [leavesBytes, List.cons_append, List.nil_append, List.mem_cons, List.mem_nil_iff, or_false] at hd
-  rcases hd with rfl | rfl | rfl
-  · kind_only
-  · kind_only
-  · exact ko_listIntoBytes
+  simp only [leavesBytes, List.mem_cons, List.mem_nil_iff, or_false] at hd
+  rcases hd with rfl | rfl
+  · exact ⟨by kind_only, by intro l; rfl⟩
+  · exact ⟨by kind_only, by intro l; rfl⟩
 
-theorem ko_barr (n : Nat) : ∀ d ∈ leavesBarr n ++ [leafListIntoBarr n], KindOnly d := by
+theorem ko_barr_leaves (n : Nat) : ∀ d ∈ leavesBarr n, KindOnly d ∧ ∀ l, d (.slice l) = .unsupported := by
   intro d hd
-  simp only [leavesBarr, List.cons_append, List.nil_append, List.mem_cons, List.mem_nil_iff, or_false] at hd
-  rcases hd with rfl | rfl | rfl
-  · kind_only
-  · kind_only
-  · exact ko_listIntoBarr n
+  simp only [leavesBarr, List.mem_cons, List.mem_nil_iff, or_false] at hd
+  rcases hd with rfl | rfl
+  · exact ⟨by kind_only, by intro l; rfl⟩
+  · exact ⟨by kind_only, by intro l; rfl⟩
 
+/-- a list of kind-only leaves that all decline list sources, followed by one decoder that is kind-only except on
+lists (the element-wise slice decoder, whose verdict on a list depends on the elements): clause 1 for every source
+kind but the list kind, clause 2 for the list kind -/
+theorem coherent_with_list_tail (ds : List Leaf) (last : Leaf)
+    (h : ∀ d ∈ ds, KindOnly d ∧ ∀ l, d (.slice l) = .unsupported) (hl : KindOnlyNS last) :
+    Coherent Val.rank (ds ++ [last]) := by
+  intro τ
+  by_cases hτ : τ = Uniflow.Generated.Kinds.slice
+  · right
+    refine ⟨ds.length, ?_⟩
+    intro p hp hne s hs
+    obtain ⟨l, rfl⟩ := rank_slice (b := s) (by rw [hs, hτ])
+    have hg := List.mem_zipIdx_iff_getElem?.mp hp
+    by_cases hlt : p.2 < ds.length
+    · rw [List.getElem?_append_left hlt] at hg
+      exact (h p.1 (List.mem_of_getElem? hg)).2 l
+    · have : p.2 - ds.length ≠ 0 := by omega
+      rw [List.getElem?_append_right (by omega)] at hg
+      cases hh : p.2 - ds.length with
+      | zero => exact absurd hh this
+      | succ k => rw [hh] at hg; simp at hg
+  · left
+    intro d hd s s' hs hs' hu
+    have hk := sameKind_of_rank (s := s) (s' := s') (by rw [hs, hs'])
+    rcases List.mem_append.mp hd with hd | hd
+    · exact (h d hd).1 s s' hk hu
+    · simp only [List.mem_singleton] at hd; subst hd
+      refine hl s s' hk ?_ hu
+      intro l e; subst e
+      exact hτ (by rw [← hs]; rfl)
 
 /-- the ordered decoder list the assembler compiles for a target type: the leaf lists of `Codec.decode` for the
 scalar-like targets, a single composite decoder otherwise -/
@@ -325,8 +357,8 @@ theorem C17.codec_lists_coherent (t : GoType) : Coherent Val.rank (decodersOf t)
   case dur => exact coherent_of_kindOnly _ ko_dur
   case uuid => exact coherent_of_kindOnly _ ko_uuid
   case any => exact coherent_of_kindOnly _ ko_any
-  case bytes => exact coherent_of_kindOnly _ ko_bytes
-  case barr n => exact coherent_of_kindOnly _ (ko_barr n)
+  case bytes => exact coherent_with_list_tail _ _ ko_bytes_leaves ko_listIntoBytes
+  case barr n => exact coherent_with_list_tail _ _ (ko_barr_leaves n) (ko_listIntoBarr n)
   all_goals exact coherent_singleton _
 
 /-- `Codec.decode` is the cold evaluation of that list with the group semantics of C17. -/
